@@ -65,7 +65,7 @@ func C09_http_upgrader() {
 		r.Header["Sec-Websocket-Extensions"] = []string{"x-a; k=v, x-b", "x-c"}
 		negotiate = vChoose("objectto", 4) // 3: objects to none
 		compliant = negotiate == 3
-		wantStatus = 403
+		wantStatus = []int{403, -1}[vChoose("objectstatus", 2)] // -1: the rejection names no status
 	case 17: // the upgrade token inside a longer Connection list, any letter case
 		v := []byte("upgrade")
 		for i := range v {
@@ -139,6 +139,9 @@ func C09_http_upgrader() {
 	if negotiate >= 0 {
 		u.Negotiate = func(o httphead.Option) (httphead.Option, error) {
 			if string(o.Name) == []string{"x-a", "x-b", "x-c", "-"}[negotiate] {
+				if wantStatus == -1 {
+					return httphead.Option{}, RejectConnectionError(RejectionReason("no"))
+				}
 				return httphead.Option{}, RejectConnectionError(RejectionStatus(403), RejectionReason("no"))
 			}
 			negotiated = append(negotiated, string(o.Name))
@@ -177,7 +180,9 @@ func C09_http_upgrader() {
 		return
 	}
 	vAssert(resp.status != 101, "http.no_101_on_failure")
-	if wantStatus != 0 {
+	if wantStatus == -1 {
+		vAssert(vAnd(resp.status >= 400, resp.status <= 599), "http.rejection_without_status_is_an_http_error")
+	} else if wantStatus != 0 {
 		vAssert(resp.status == wantStatus, "http.builtin_status")
 	}
 	cl, n := resp.get("Content-Length")
